@@ -385,11 +385,12 @@ impl Monitor for C09 {
          changes nothing; on Err every field equals the snapshot. non-trivial = >=1 pair joining two different nodes, or a history; distinct = hash of diagram / step log. Also: the read-only coequalizer() of a bare lax hypergraph (same partition, diagram untouched) and the lengths of all public vectors on the failure path."
     }
     fn corpus_len(&self) -> u64 {
-        corpus().len() as u64
+        corpus().len() as u64 + 6
     }
     fn floors(&self) -> Vec<(&'static str, u64)> {
         vec![
             ("class:label_consistent", 200),
+            ("class:long_unification_chain_on_a_thread_stack", 6),
             ("class:label_conflict", 100),
             ("class:has_self_pair", 20),
             ("class:has_repeated_pair", 20),
@@ -412,6 +413,39 @@ impl Monitor for C09 {
             let (class, p) = &c[idx as usize];
             ctx.class(class);
             self.single(ctx, class, p);
+            return;
+        }
+        if (idx as usize) < c.len() + 6 {
+            // long chains and stars of unifications recorded in every orientation, quotiented on a thread with the
+            // default 2 MiB stack
+            let n = if cfg!(miri) { 200usize } else { 400_000usize };
+            let shape = idx as usize - c.len();
+            let pairs: Vec<(usize, usize)> = match shape {
+                0 => (0..n - 1).map(|i| (i + 1, i)).collect(),
+                1 => (0..n - 1).map(|i| (i, i + 1)).collect(),
+                2 => (0..n - 1).rev().map(|i| (i + 1, i)).collect(),
+                3 => (0..n - 1).rev().map(|i| (i, i + 1)).collect(),
+                4 => (0..n - 1).map(|i| (i, n - 1)).collect(),
+                _ => (0..n - 1).map(|i| (n - 1, i)).collect(),
+            };
+            ctx.class("long_unification_chain_on_a_thread_stack");
+            let mut f: LOh<u32, u64> = lax::OpenHypergraph::empty();
+            f.hypergraph.nodes = vec![0u32; n];
+            f.sources = vec![lax::NodeId(0), lax::NodeId(n / 2)];
+            f.targets = vec![lax::NodeId(n - 1)];
+            f.hypergraph.quotient = (pairs.iter().map(|p| lax::NodeId(p.0)).collect(), pairs.iter().map(|p| lax::NodeId(p.1)).collect());
+            let input = json!({"nodes": n, "shape": shape});
+            let res = on_thread_stack(|| f.quotient());
+            if let Some(r) = must_return(ctx, "OpenHypergraph::quotient", "long_chain", res, || input.clone()) {
+                let ok = matches!(&r, Ok(q) if q.target == 1 && q.table.0.len() == n && q.table.0.iter().all(|&c| c == 0))
+                    && f.hypergraph.nodes == vec![0u32]
+                    && f.sources == vec![lax::NodeId(0), lax::NodeId(0)]
+                    && f.targets == vec![lax::NodeId(0)]
+                    && f.hypergraph.quotient.0.is_empty()
+                    && f.hypergraph.quotient.1.is_empty();
+                ctx.check(ok, "OpenHypergraph::quotient/fibres-are-components/value/long_chain", || json!({"input": input, "observed_ok": r.is_ok(), "observed_nodes": f.hypergraph.nodes.len()}));
+            }
+            ctx.nontrivial(&("long_chain", shape));
             return;
         }
         if r.chance(1, 5) {
